@@ -126,7 +126,8 @@ Section Steps.
     intros Hs. unfold get_attr. apply fin_firstM. intros x. unfold atom_attr.
     destruct x as [q|q|f|m|t]; try apply fin_ok.
     - apply fin_bind; [apply Hca; exact Hs|]. intros; apply fin_ok.
-    - apply fin_bind; [apply Hia; exact Hs|]. intros; apply fin_ok.
+    - apply fin_bind; [apply Hca; exact Hs|]. intros t _.
+      apply fin_bind; [apply Hia; exact Hs|]. intros; apply fin_ok.
     - destruct (lookup g m) as [[]|]; apply fin_ok.
   Qed.
 
@@ -168,7 +169,7 @@ Section Steps.
     apply fin_mapM. intros [q|q|f|m|t]; try apply fin_ok. apply Hca; exact Hs'.
   Qed.
 
-  Lemma iattrs_step_fin s n : guard_attrs c = true -> M g s < S k -> fin (iattrs_step c g ev_ ca_ ia_ s n).
+  Lemma iattrs_step_fin s n : guard_attrs c = true -> M g s < S k -> fin (iattrs_step c g ev_ ia_ s n).
   Proof.
     intros Hg Hs. unfold iattrs_step. destruct (lookup g n) as [nd|] eqn:Hl; [|apply fin_ok].
     destruct nd; try apply fin_ok. rewrite Hg. simpl.
@@ -176,7 +177,6 @@ Section Steps.
     assert (Hs' : M g (add_ia n s) < k).
     { unfold M, add_ia in *. simpl.
       pose proof (free_cons_lt n (ia s) (size g) (lookup_lt _ _ _ Hl) Hm). lia. }
-    apply fin_bind; [apply Hca; exact Hs'|]. intros own _.
     apply fin_bind; [apply fin_mapM; intros; apply Hev; exact Hs'|]. intros vals _.
     apply fin_bind; [apply fin_base_objects|]. intros bs _.
     apply fin_bind; [|intros; apply fin_ok].
@@ -326,20 +326,18 @@ Section Tables.
     - exact (concat_tabs_ok ca_ _ _ _ Hca Hm kv Hin).
   Qed.
 
-  Lemma iattrs_step_tbl s n t : iattrs_step c g ev_ ca_ ia_ s n = Ok t -> tbl_okP g t.
+  Lemma iattrs_step_tbl s n t : iattrs_step c g ev_ ia_ s n = Ok t -> tbl_okP g t.
   Proof.
     unfold iattrs_step. destruct (lookup g n) as [nd|] eqn:Hl.
     2:{ intros H; inversion H; subst. intros kv []. }
     destruct nd; try (intros H; inversion H; subst; intros kv []; fail).
     destruct (guard_attrs c && mem n (ia s)).
     { intros H; inversion H; subst. intros kv []. }
-    destruct (ca_ (add_ia n s) n) as [own|e|] eqn:Hown; simpl; try discriminate.
     destruct (mapM (ev_ (add_ia n s)) bases) as [vals|e|]; simpl; try discriminate.
     destruct (base_objects c vals) as [bs|e|]; simpl; try discriminate.
     destruct (mapM _ bs) as [tabs|e|] eqn:Hm; simpl; try discriminate.
-    intros H; inversion H; subst. intros kv Hin. apply in_app_or in Hin. destruct Hin as [Hin|Hin].
-    - exact (concat_tabs_ok ia_ _ _ _ Hia Hm kv Hin).
-    - exact (Hca _ _ _ Hown kv Hin).
+    intros H; inversion H; subst. intros kv Hin.
+    exact (concat_tabs_ok ia_ _ _ _ Hia Hm kv Hin).
   Qed.
 End Tables.
 
@@ -351,7 +349,7 @@ Proof.
   - split; intros; discriminate.
   - split; intros s n t H; simpl in H.
     + exact (cattrs_step_tbl c g Ht (eval f c g) (cattrs f c g) IHc s n t H).
-    + exact (iattrs_step_tbl c g (eval f c g) (cattrs f c g) (iattrs f c g) IHc IHi s n t H).
+    + exact (iattrs_step_tbl c g (eval f c g) (iattrs f c g) IHi s n t H).
 Qed.
 
 Lemma get_attr_typed c g fuel s v a m : typed g = true ->
@@ -362,8 +360,10 @@ Proof.
   unfold atom_attr in Hx. destruct x as [q|q|f|md|t]; try discriminate.
   - destruct (cattrs fuel c g s q) as [tb|e|] eqn:E; simpl in Hx; try discriminate.
     inversion Hx as [Ha]. destruct (assoc_in _ _ _ Ha) as (k & Hin). exact (Hc _ _ _ E _ Hin).
-  - destruct (iattrs fuel c g s q) as [tb|e|] eqn:E; simpl in Hx; try discriminate.
-    inversion Hx as [Ha]. destruct (assoc_in _ _ _ Ha) as (k & Hin). exact (Hi _ _ _ E _ Hin).
+  - destruct (cattrs fuel c g s q) as [tb|e|] eqn:E; simpl in Hx; try discriminate.
+    destruct (iattrs fuel c g s q) as [tb2|e|] eqn:E2; simpl in Hx; try discriminate.
+    inversion Hx as [Ha]. destruct (assoc_in _ _ _ Ha) as (k & Hin). apply in_app_or in Hin.
+    destruct Hin as [Hin|Hin]; [exact (Hi _ _ _ E2 _ Hin)|exact (Hc _ _ _ E _ Hin)].
   - destruct (lookup g md) as [nd|] eqn:Hl; try discriminate.
     destruct nd; try discriminate. inversion Hx as [Ha].
     pose proof (typed_lookup _ _ _ Ht Hl) as Hn. simpl in Hn. apply tbl_ok_P in Hn.
@@ -649,7 +649,7 @@ Proof. vm_compute. reflexivity. Qed.
 
 (* The recursion depth is bounded by the size of the graph, not by a constant: for every stack
    limit L there is a well-levelled flow graph (L+1 flows in sequence, e.g. sequential if
-   statements) on which resolution needs more than L frames (open findings F47 / F48). *)
+   statements) on which resolution needs more than L frames (open findings F48 / F49). *)
 Definition chain (n : nat) : fgraph :=
   map (fun i => {| own := []; parents := if Nat.eqb i 0 then [] else [PDirect (i - 1)]; outer := None |})
       (seq 0 n).
